@@ -152,6 +152,50 @@ func checkB64String(r *harness.Run, s string) error {
 			r.Nontrivial("bs:" + s)
 		}
 	}
+	// the JSON entry point: every spelling of the same string (one character, or all of them, written as \u00xx in lower or
+	// upper case, or with the short escape JSON defines for it: \/ for the solidus, \n for the line feed) denotes the same
+	// string and must decode exactly as Decode does
+	spell := func(c byte, kind int) string {
+		switch kind {
+		case 1:
+			return fmt.Sprintf("\\u%04x", c)
+		case 2:
+			return fmt.Sprintf("\\u%04X", c)
+		case 3:
+			switch c {
+			case '/':
+				return "\\/"
+			case '\n':
+				return "\\n"
+			}
+		}
+		if c == '\n' {
+			return "\\n" // a raw line feed is not allowed inside a JSON string
+		}
+		return string(c)
+	}
+	for kind := 0; kind <= 3; kind++ {
+		for pos := -1; pos < len(s); pos++ {
+			if kind == 0 && pos >= 0 {
+				break
+			}
+			var sb strings.Builder
+			sb.WriteByte('"')
+			for i := 0; i < len(s); i++ {
+				k := 0
+				if pos == -1 || pos == i {
+					k = kind
+				}
+				sb.WriteString(spell(s[i], k))
+			}
+			sb.WriteByte('"')
+			var j spec.Base64Bytes
+			jerr := json.Unmarshal([]byte(sb.String()), &j)
+			if (jerr == nil) != (err == nil) || (err == nil && !bytes.Equal(j, d)) {
+				return fmt.Errorf("UnmarshalJSON(%s) = %x, %v but Decode(%q) = %x, %v: one string, two answers", sb.String(), []byte(j), jerr, s, []byte(d), err)
+			}
+		}
+	}
 	if err == nil {
 		// whatever was accepted must round-trip as a value
 		var d2 spec.Base64Bytes
